@@ -6,11 +6,10 @@ precondition, no exhausted loop bound: the C02 face) of exactly what the declara
 sortedness (= strict ascent, hence uniqueness) and the capacity bound are invariants of every history; whole
 histories refine the spec.
 
-Two members are written with `operator==` instead of the comparator — `static_set::find/contains/count(key_type const&)`
-(`etl::find`) and `flat_set::erase(key_type const&)` (`etl::remove`).  Exactly their theorems carry the extra
-hypothesis `EquivIsEq lt` (`==` agrees with the comparator's equivalence); `ssFind_needs_equivIsEq` and
-`fsEraseKey_needs_equivIsEq` show that it cannot be dropped.  The heterogeneous (`K const&`) overloads are
-modelled with their own pair of comparison functions and proved under the consistency condition `HetOk`.
+No theorem needs `operator==` to agree with the comparator's equivalence: the two members that were written with
+`operator==` (`static_set::find(key_type const&)`, `flat_set::erase(key_type const&)`) were found to diverge from
+`std::set` for such comparators and repaired (F-C09-ss-find-eq, F-C09-fs-erase-key-eq).  The heterogeneous (`K const&`)
+overloads are modelled with their own pair of comparison functions and proved under the consistency condition `HetOk`.
 -/
 import TetlProofs.C09.Hint
 import TetlProofs.C09.Mset
@@ -72,71 +71,6 @@ theorem hetOk_hom (hw : StrictWeak lt) : HetOk lt ({ ek := lt, ke := lt } : Het 
 example : HetOk (fun a b : Nat => decide (a < b))
     ({ ek := fun x k => decide (x < k.1), ke := fun k x => decide (k.1 < x) } : Het Nat (Nat × Bool)) :=
   ⟨by intro k a b; simp; omega, by intro k a b; simp; omega, by intro k a; simp; omega⟩
-
-/-- static_set::find(key): the linear `etl::find` (`operator==`) gives the spec's answer on a sorted set when
-    `==` is the comparator's equivalence -/
-theorem ssFind_eq [DecidableEq α] (hw : StrictWeak lt) (heq : EquivIsEq lt) {l : List α} (hs : Sorted lt l) (k : α) :
-    ssFind l k = .ok (Spec.find lt l k) := by
-  obtain ⟨A, B, hl, _, hsl, hA, _, _, hcase⟩ := probe hw hs k
-  obtain ⟨W, D, hWD, hW, hD, hres⟩ := findIfLoop_split (fun x => decide (x = k)) l []
-  simp only [List.nil_append, List.length_nil, Nat.zero_add] at hres
-  unfold ssFind Spec.find
-  rw [hres]
-  have hkA : k ∉ A := fun h => by have := hA k h; rw [hw.irrefl] at this; cases this
-  have hkW : k ∉ W := fun h => by have := hW k h; simp at this
-  have hDk : ∀ d D', D = d :: D' → d = k := fun d D' h => by simpa using hD d D' h
-  rcases hcase with ⟨b, B', hB, hb1, hb2, hB', _, hc⟩ | ⟨hB', _, hc⟩
-  · rw [hc, hsl]; simp only [if_true]
-    have hbk : b = k := heq b k hb1 hb2
-    subst hbk
-    subst hB
-    have heq' : W ++ D = A ++ b :: B' := by rw [← hWD, hl]
-    rcases List.append_eq_append_iff.mp heq' with ⟨a', ha, hd⟩ | ⟨c', hc', hd⟩
-    · cases a' with
-      | nil => simp at ha; rw [ha]
-      | cons x a'' =>
-        exfalso
-        have : x = b := hDk x _ hd
-        apply hkA; rw [ha, this]; simp
-    · cases c' with
-      | nil => simp at hc'; rw [hc']
-      | cons y c'' =>
-        exfalso
-        have : b = y := by simp at hd; exact hd.1
-        apply hkW; rw [hc', ← this]; simp
-  · rw [hc]; simp only [Bool.false_eq_true, if_false]
-    have hkl : k ∉ l := by
-      rw [hl]; intro h
-      rcases List.mem_append.mp h with h | h
-      · exact hkA h
-      · have := hB' k h; rw [hw.irrefl] at this; cases this
-    cases D with
-    | nil => rw [hWD]; simp
-    | cons d D' =>
-      exfalso
-      have : d = k := hDk d D' rfl
-      apply hkl; rw [hWD, this]; simp
-
-/-- static_set's `key_type const&` lookups (find / contains / count through `etl::find`, the bounds through the comparator) -/
-theorem ssLookup_eq [DecidableEq α] (hw : StrictWeak lt) (heq : EquivIsEq lt) {l : List α} (hs : Sorted lt l)
-    (k : α) (w : Lk) :
-    ssLookup lt l k w = .ok (Spec.lookupP (fun x => lt x k) (fun x => lt k x) l w) := by
-  have hf : ssFind l k = .ok (Spec.findP (fun x => lt x k) (fun x => lt k x) l) := ssFind_eq hw heq hs k
-  have hne := findP_ne_length (parted_hom hw hs k)
-  cases w with
-  | find => simp only [ssLookup, hf, ok_bind, Spec.lookupP]
-  | contains => simp only [ssLookup, hf, ok_bind, Spec.lookupP, hne]
-  | count => simp only [ssLookup, hf, ok_bind, Spec.lookupP, hne]
-  | lowerBound => exact lookup_eq hw hs k .lowerBound
-  | upperBound => exact lookup_eq hw hs k .upperBound
-  | equalRange => exact lookup_eq hw hs k .equalRange
-
-/-- `EquivIsEq` cannot be dropped from `ssFind_eq`: ordering integers by `k / 2` is a strict weak order, `{2}` is a
-    sorted set, and `static_set::find(3)` misses the element equivalent to 3 that `std::set::find` returns -/
-theorem ssFind_needs_equivIsEq :
-    StrictWeak (fun a b : Nat => decide (a / 2 < b / 2)) ∧ Sorted (fun a b : Nat => decide (a / 2 < b / 2)) [2] ∧
-      ssFind [2] 3 = .ok 1 ∧ Spec.find (fun a b : Nat => decide (a / 2 < b / 2)) [2] 3 = 0 :=
-  ⟨⟨by intro a; simp, by intro a b c; simp; omega, by intro a b c; simp; omega⟩, by unfold Sorted; decide, rfl, by decide⟩
 
 /-! ## insert / emplace -/
 
@@ -266,58 +200,48 @@ theorem ssEraseKey_eq (hw : StrictWeak lt) {l : List α} (hs : Sorted lt l) (k :
     obtain ⟨_, _, _, f1, f2⟩ := spec_absent hA hA' hB hB'
     simp [hr, he, f1, f2]
 
-/-- what `remove` + `erase(it, end())` leaves and counts, in spec terms (`remove` compares with `operator==`) -/
-theorem remove_erase_spec [DecidableEq α] (hirr : ∀ a, lt a a = false) (heq : EquivIsEq lt) (l : List α) (k : α) :
-    ∃ l1, removeIf l (fun x => decide (x = k)) = .ok (l1, (Spec.eraseKey lt l k).1.length) ∧
-      l1.take (Spec.eraseKey lt l k).1.length ++ l1.drop l1.length = (Spec.eraseKey lt l k).1 ∧
-      (Spec.eraseKey lt l k).1.length ≤ l1.length ∧
-      l1.length - (Spec.eraseKey lt l k).1.length = (Spec.eraseKey lt l k).2 := by
-  have hq : (fun x => !Spec.equiv lt k x) = (fun x => !(fun x => decide (x = k)) x) := by
-    funext x; rw [equiv_iff_eq hirr heq]
-  have hq2 : Spec.equiv lt k = (fun x => decide (x = k)) := by funext x; rw [equiv_iff_eq hirr heq]
-  obtain ⟨l1, h1, h2, h3⟩ := removeIf_spec (fun x => decide (x = k)) l
-  refine ⟨l1, ?_, ?_, ?_, ?_⟩
-  · simp only [Spec.eraseKey, hq]; exact h1
-  · simp only [Spec.eraseKey, hq]; rw [h2]; simp
-  · simp only [Spec.eraseKey, hq]; rw [h3]; exact List.length_filter_le _ _
-  · simp only [Spec.eraseKey, hq2, h3]
-    have := countP_add_not (fun x => decide (x = k)) l
-    omega
+/-- flat_set::erase(key) (`find` + `erase(it)`) over static_vector = spec -/
+theorem fsEraseKey_eq (hw : StrictWeak lt) {l : List α} (hs : Sorted lt l) (k : α) :
+    fsEraseKey lt l k = .ok (Spec.eraseKey lt l k) := by
+  obtain ⟨A, B, hl, hr, hsl, hA, hA', hB, hcase⟩ := probe hw hs k
+  have hr' : boundLoop l (fun x => lt x k) 0 l.length = .ok A.length := hr
+  unfold fsEraseKey findLB Spec.eraseKey
+  rcases hcase with ⟨b, B', hB2, hb1, hb2, hB', he, _⟩ | ⟨hB', he, _⟩
+  · subst hB2; subst hl
+    obtain ⟨_, f1, f2⟩ := spec_present hb1 hb2 hA hB'
+    have her : ssEraseAt (A ++ b :: B') A.length = .ok (A ++ B', A.length) := by
+      unfold ssEraseAt
+      rw [if_neg (by simp), svErase_eq _ _ _ (by omega) (by simp)]
+      simp
+    have hne : ¬ A.length = (A ++ b :: B').length := by simp
+    simp only [hr', ok_bind, he]
+    simp [her, f1, f2]
+  · subst hl
+    obtain ⟨_, _, _, f1, f2⟩ := spec_absent hA hA' hB hB'
+    simp only [hr', ok_bind, he]
+    simp [f1, f2]
 
-/-- flat_set::erase(key) (`remove` + `erase(it,end)`) = spec, for ANY vector (sortedness is not used), when `==` is the
-    comparator's equivalence (irreflexivity + `EquivIsEq`; transitivity is not used) -/
-theorem fsEraseKey_eq [DecidableEq α] (hirr : ∀ a, lt a a = false) (heq : EquivIsEq lt) (l : List α) (k : α) :
-    fsEraseKey l k = .ok (Spec.eraseKey lt l k) := by
-  obtain ⟨l1, h1, h2, h3, h4⟩ := remove_erase_spec hirr heq l k
-  unfold fsEraseKey
-  simp only [h1, ok_bind]
-  rw [svErase_eq _ _ _ h3 (Nat.le_refl _)]
-  simp only [ok_bind, h2, h4]
-
-/-- `EquivIsEq` cannot be dropped from `fsEraseKey_eq`: with integers ordered by `k / 2`, `flat_set::erase(3)` on `{2}`
-    removes nothing while `std::set::erase(3)` removes the equivalent element 2 -/
-theorem fsEraseKey_needs_equivIsEq :
-    StrictWeak (fun a b : Nat => decide (a / 2 < b / 2)) ∧ Sorted (fun a b : Nat => decide (a / 2 < b / 2)) [2] ∧
-      fsEraseKey [2] 3 = .ok ([2], 0) ∧ Spec.eraseKey (fun a b : Nat => decide (a / 2 < b / 2)) [2] 3 = ([], 1) :=
-  ⟨⟨by intro a; simp, by intro a b c; simp; omega, by intro a b c; simp; omega⟩, by unfold Sorted; decide, rfl, by decide⟩
-
-/-- erase(key) of every set kind; only the flat_set kinds need `EquivIsEq` -/
-theorem setEraseKey_eq [DecidableEq α] (hw : StrictWeak lt) (kind : Kind) (heq : kind ≠ .ss → EquivIsEq lt)
-    {l : List α} (hs : Sorted lt l) (k : α) :
+/-- erase(key) of every set kind -/
+theorem setEraseKey_eq (hw : StrictWeak lt) (kind : Kind) {l : List α} (hs : Sorted lt l) (k : α) :
     setEraseKey kind lt l k = .ok (Spec.eraseKey lt l k) := by
   cases kind
   · exact ssEraseKey_eq hw hs k
-  · exact fsEraseKey_eq hw.irrefl (heq (by decide)) l k
-  · obtain ⟨l1, e1, e2, e3, e4⟩ := remove_erase_spec hw.irrefl (heq (by decide)) l k
-    have hme : miniErase l1 (Spec.eraseKey lt l k).1.length l1.length
-        = .ok (l1.take (Spec.eraseKey lt l k).1.length ++ l1.drop l1.length,
-            (Spec.eraseKey lt l k).1.length) := by
-      unfold miniErase
-      have : (decide ((Spec.eraseKey lt l k).1.length > l1.length) || decide (l1.length > l1.length)) = false := by
-        simp; omega
-      rw [this]; rfl
-    have e2' : l1.take (Spec.eraseKey lt l k).1.length = (Spec.eraseKey lt l k).1 := by simpa using e2
-    simp [setEraseKey, e1, hme, e2', e4]
+  · exact fsEraseKey_eq hw hs k
+  · obtain ⟨A, B, hl, hr, hsl, hA, hA', hB, hcase⟩ := probe hw hs k
+    have hr' : boundLoop l (fun x => lt x k) 0 l.length = .ok A.length := hr
+    unfold setEraseKey findLB Spec.eraseKey
+    rcases hcase with ⟨b, B', hB2, hb1, hb2, hB', he, _⟩ | ⟨hB', he, _⟩
+    · subst hB2; subst hl
+      obtain ⟨_, f1, f2⟩ := spec_present hb1 hb2 hA hB'
+      have hne : ¬ A.length = (A ++ b :: B').length := by simp
+      have hme : miniErase (A ++ b :: B') A.length (A.length + 1) = .ok (A ++ B', A.length) := by
+        simp [miniErase]
+      simp only [hr', ok_bind, he]
+      simp [hme, f1, f2]
+    · subst hl
+      obtain ⟨_, _, _, f1, f2⟩ := spec_absent hA hA' hB hB'
+      simp only [hr', ok_bind, he]
+      simp [f1, f2]
 
 /-- erase(pos) and erase(first,last) on a valid position / range = spec -/
 theorem ssEraseRange_eq (l : List α) (f la : Nat) (h1 : f ≤ la) (h2 : la ≤ l.length) :
@@ -489,11 +413,9 @@ theorem step_inv (hw : StrictWeak lt) (h : Het α κ) (isSet : Bool) {cap : Nat}
   | riter => exact ⟨h1, h2⟩
 
 /-- One operation of any of the three set kinds on a state satisfying the invariant: the model
-    never errors and produces exactly the spec's new state and observable result.  `EquivIsEq` is asked for
-    only when the operation is one of the two written with `operator==` (`usesEq`). -/
-theorem step_refines [DecidableEq α] (hw : StrictWeak lt) {h : Het α κ} (hh : HetOk lt h) (kind : Kind) {cap : Nat}
-    {s : St α} (hinv : Inv lt cap s) (op : Op α κ) (hv : Spec.valid cap lt s op = true) (hk : opOk kind op = true)
-    (hq : usesEq kind op = true → EquivIsEq lt) :
+    never errors and produces exactly the spec's new state and observable result. -/
+theorem step_refines (hw : StrictWeak lt) {h : Het α κ} (hh : HetOk lt h) (kind : Kind) {cap : Nat}
+    {s : St α} (hinv : Inv lt cap s) (op : Op α κ) (hv : Spec.valid cap lt s op = true) (hk : opOk kind op = true) :
     step kind lt h cap s op = .ok (Spec.step (kind == .ss) lt h cap s op) := by
   obtain ⟨h1, h2⟩ := hinv
   have hs := h1.1
@@ -503,8 +425,7 @@ theorem step_refines [DecidableEq α] (hw : StrictWeak lt) {h : Het α κ} (hh :
     cases kind <;> simp [opOk] at hk <;> simp [step, Spec.step, fsInsertHint_eq hw _ h1]
   | insertRange ks => simp [step, Spec.step, setInsertRange_eq hw kind ks h1]
   | eraseKey k =>
-    have := setEraseKey_eq hw kind (fun hne => hq (by cases kind <;> simp_all [usesEq])) hs k
-    simp [step, Spec.step, this]
+    simp [step, Spec.step, setEraseKey_eq hw kind hs k]
   | eraseAt pos =>
     simp [Spec.valid] at hv
     cases kind
@@ -526,17 +447,7 @@ theorem step_refines [DecidableEq α] (hw : StrictWeak lt) {h : Het α κ} (hh :
     simp [Spec.valid] at hv
     cases kind <;> simp [opOk] at hk <;>
       simp [step, Spec.step, svCtor_eq cap c hv.1, miniCtor_eq cap c hv.1, replace_eq _ _ hv.1]
-  | lookup w k =>
-    cases kind
-    · cases w
-      · simp [step, Spec.step, ssLookup_eq hw (hq (by simp [usesEq])) hs k]
-      · simp [step, Spec.step, ssLookup_eq hw (hq (by simp [usesEq])) hs k]
-      · simp [step, Spec.step, ssLookup_eq hw (hq (by simp [usesEq])) hs k]
-      · simp [step, Spec.step, ssLookup, lookup_eq hw hs k]
-      · simp [step, Spec.step, ssLookup, lookup_eq hw hs k]
-      · simp [step, Spec.step, ssLookup, lookup_eq hw hs k]
-    · simp [step, Spec.step, lookup_eq hw hs k]
-    · simp [step, Spec.step, lookup_eq hw hs k]
+  | lookup w k => simp [step, Spec.step, lookup_eq hw hs k]
   | hlookup w k => simp [step, Spec.step, hlookup_eq hh hs k]
   | riter => simp [step, Spec.step, riter_eq]
 
@@ -546,24 +457,21 @@ theorem step_refines [DecidableEq α] (hw : StrictWeak lt) {h : Het α κ} (hh :
     iteration — of any length, for any capacity, key type and strict weak order, any consistent heterogeneous
     comparison, for static_set and both flat_set backings — runs without a single out-of-vector access,
     precondition violation or exhausted loop bound, and its outputs (positions, inserted flags, `full` reports,
-    erased counts, lookup answers, extracted contents) and final state equal those of the std::set specification.
-    `==` must agree with the comparator's equivalence only if the history contains one of the two operations
-    written with `operator==`. -/
-theorem run_refines [DecidableEq α] (hw : StrictWeak lt) {h : Het α κ} (hh : HetOk lt h) (kind : Kind) (cap : Nat) :
+    erased counts, lookup answers, extracted contents) and final state equal those of the std::set specification. -/
+theorem run_refines (hw : StrictWeak lt) {h : Het α κ} (hh : HetOk lt h) (kind : Kind) (cap : Nat) :
     ∀ (ops : List (Op α κ)) (s : St α), Inv lt cap s → opsOk kind ops = true →
-      validHist (kind == .ss) lt h cap s ops = true → (ops.any (usesEq kind) = true → EquivIsEq lt) →
+      validHist (kind == .ss) lt h cap s ops = true →
       run kind lt h cap s ops = .ok (Spec.run (kind == .ss) lt h cap s ops) := by
   intro ops
   induction ops with
-  | nil => intro s _ _ _ _; rfl
+  | nil => intro s _ _ _; rfl
   | cons op ops ih =>
-    intro s hinv hok hv hq
+    intro s hinv hok hv
     simp only [opsOk, List.all_cons, Bool.and_eq_true] at hok
     simp only [validHist, Bool.and_eq_true] at hv
-    have hstep := step_refines hw hh kind hinv op hv.1 hok.1 (fun hu => hq (by simp [hu]))
+    have hstep := step_refines hw hh kind hinv op hv.1 hok.1
     have hinv' := step_inv hw h (kind == .ss) hinv op hv.1
     have hrest := ih (Spec.step (kind == .ss) lt h cap s op).1 hinv' hok.2 hv.2
-      (fun hu => hq (by simp only [List.any_cons, hu, Bool.or_true]))
     simp only [run, Spec.run, hstep, ok_bind, hrest]
 
 /-- MAIN THEOREM (invariant over histories): after every valid history both sets are strictly
@@ -580,7 +488,7 @@ theorem inv_history (hw : StrictWeak lt) (h : Het α κ) (isSet : Bool) (cap : N
     exact ih _ (step_inv hw h isSet hinv op hv.1) hv.2
 
 /-- the comparators of the harness satisfy the hypotheses: `less` / `greater` on integers are strict total orders
-    (strict weak + `EquivIsEq`); ordering by `k / 2` is a strict weak order only -/
+    (hence strict weak orders); ordering by `k / 2` is a strict weak order that is not total -/
 theorem strictTotal_nat_lt : StrictTotal (fun a b : Nat => decide (a < b)) :=
   ⟨by simp, by intro a b c; simp; omega, by intro a b; simp; omega⟩
 theorem strictTotal_nat_gt : StrictTotal (fun a b : Nat => decide (a > b)) :=
@@ -588,7 +496,10 @@ theorem strictTotal_nat_gt : StrictTotal (fun a b : Nat => decide (a > b)) :=
 theorem strictWeak_nat_half : StrictWeak (fun a b : Nat => decide (a / 2 < b / 2)) :=
   ⟨by intro a; simp, by intro a b c; simp; omega, by intro a b c; simp; omega⟩
 
-/-- the old hypothesis `StrictTotal` is exactly `StrictWeak` + `EquivIsEq` -/
+theorem half_not_total : ¬ EquivIsEq (fun a b : Nat => decide (a / 2 < b / 2)) :=
+  fun h => absurd (h 2 3 (by decide) (by decide)) (by decide)
+
+/-- the former hypothesis `StrictTotal` is exactly `StrictWeak` + `EquivIsEq` (`==` is the comparator's equivalence) -/
 theorem strictTotal_iff : StrictTotal lt ↔ StrictWeak lt ∧ EquivIsEq lt :=
   ⟨fun h => ⟨h.toWeak, h.equivIsEq⟩, fun h => StrictTotal.of h.1 h.2⟩
 
@@ -601,8 +512,5 @@ example : validHist false (fun a b : Nat => decide (a < b)) ({ ek := fun x k => 
       .riter, .extract] = true := by
   decide
 example : opsOk Kind.fs ([.insert 4, .swap, .replace [0, 7], .insertHint 1 3, .extract] : List (Op Nat Nat)) = true := by decide
--- a history without `==`-based operations on a comparator that is only a strict weak order
-example : ([.insert 4, .lookup .lowerBound 3, .hlookup .find 2, .eraseKey 5] : List (Op Nat Nat)).any (usesEq Kind.ss) = false := by
-  decide
 
 end Tetl.C09.Props
